@@ -252,7 +252,9 @@ let eval_e2e fs =
       | (v', g) :: t -> if v' = gv then Some g else find t in
     find (!st).r_gens in
   (* the stretches of the real run, for the property predicate *)
-  let stretches = ref [] and cur = ref [] and cur_start = ref (z_of_int (-2)) in
+  (* cur_res: the absolute offset the placeholder (FirstOffset / LastOffset) of the current stretch was
+     FIRST resolved to: the ListOffsets answers of the first initialised connection of its generation *)
+  let stretches = ref [] and cur = ref [] and cur_start = ref (z_of_int (-2)) and cur_res = ref None in
   let toks = let e = get fs "ev" in if e = "." || e = "" then [] else split_on ',' e in
   List.iter (fun tok ->
     match String.split_on_char ':' tok with
@@ -268,7 +270,7 @@ let eval_e2e fs =
       let restarted = ((!st).r_offset <> o) in
       ignore (step (LSetOffset o));
       if restarted then begin
-        stretches := (!cur_start, List.rev !cur) :: !stretches; cur := []; cur_start := o
+        stretches := (!cur_start, !cur_res, List.rev !cur) :: !stretches; cur := []; cur_start := o; cur_res := None
       end
     | ["D"; m] ->
       let gm = parse_msg m in
@@ -285,6 +287,8 @@ let eval_e2e fs =
     | ["I"; g; _conn; f1; l1; f2; l2] ->
       abort_call ();
       ignore (step LBegin);
+      if !cur_res = None && gen_of g = (!st).r_version then
+        cur_res := Some (match int_of_z !cur_start with -2 -> z_of_hex f1 | -1 -> z_of_hex l1 | _ -> !cur_start);
       ignore (step (LGen (gen_of g, GInit (z_of_hex f1, z_of_hex l1, z_of_hex f2, z_of_hex l2), kall)))
     | ["X"; g] ->
       ignore (step (LGen (gen_of g, GDialFail, kall)))
@@ -303,19 +307,27 @@ let eval_e2e fs =
         | ["n"] -> FNoProgress
         | _ -> failwith ("bad F token " ^ tok)) in
       ignore (step (LGen (gv, GFetch r, kall)))
+    | ["N"; g; _conn; reqoff] ->
+      (* the fetch pending at the end: issued at the model's Conn.offset *)
+      (match conn_off (gen_of g) with
+       | Some gs ->
+         if gs.g_phase = PRead && hex_of_z gs.g_conn <> reqoff then
+           note (Printf.sprintf "REQOFF gen %s model %s real %s (pending at the end)" g (hex_of_z gs.g_conn) reqoff)
+       | None -> note ("NOGEN " ^ g))
     | ["O"; g; _conn; "-"] ->
       ignore (step (LGen (gen_of g, GOffsets None, kall)))
     | ["O"; g; _conn; f; l] ->
       ignore (step (LGen (gen_of g, GOffsets (Some (z_of_hex f, z_of_hex l)), kall)))
     | _ -> failwith ("bad token " ^ tok)) toks;
-  stretches := (!cur_start, List.rev !cur) :: !stretches;
+  stretches := (!cur_start, !cur_res, List.rev !cur) :: !stretches;
   (* the property predicate on what the REAL reader returned *)
   let first = z_of_hex (get fs "first") and last = z_of_hex (get fs "last") in
   let resolve o =
     match int_of_z o with
     | -2 -> first | -1 -> last
     | _ -> o in
-  let prop_ok = List.for_all (fun (s, ms) -> delivery_okb log (resolve s) ms) !stretches in
+  let prop_ok = List.for_all (fun (s, res, ms) ->
+      delivery_okb log (match res with Some a when int_of_z s < 0 -> a | _ -> resolve s) ms) !stretches in
   let d = List.rev !delivered in
   Printf.sprintf "%s;%s;%s"
     (if d = [] then "." else String.concat "," d)
